@@ -317,7 +317,11 @@ func c19JudgeConfig(mask int) *vlib.Failure {
 	set(1, func() { cfg.Origins = append(cfg.Origins, "null") })
 	set(2, func() { cfg.Methods = append(cfg.Methods, "CONNECT") })
 	set(3, func() { cfg.Methods = append(cfg.Methods, "bad method") })
-	set(4, func() { cfg.RequestHeaders = append(cfg.RequestHeaders, "Cookie") })
+	set(4, func() { cfg.RequestHeaders = append(cfg.RequestHeaders, "Cookie", "X-Ok") })
+	if mask&(1<<4) != 0 && mask&(1<<3) != 0 {
+		cfg.RequestHeaders = append(cfg.RequestHeaders, "Sec-Fetch Mode") // invalid and carrying a forbidden prefix: one violation
+		want++
+	}
 	set(5, func() { cfg.ResponseHeaders = append(cfg.ResponseHeaders, "Set-Cookie") })
 	set(6, func() { cfg.MaxAgeInSeconds = 86401 })
 	set(7, func() { cfg.PreflightSuccessStatus = 300 })
